@@ -669,6 +669,7 @@ class IndexSorts:
         self.params = set(er.param_names(fn))
         self.gathered = {}   # local D -> parameter X it was gathered from
         self.env = {}        # name -> set of sorts {'Farr','Sarr','F','S'}
+        self.derived = {}    # local container -> the container it is an element-wise image of
         for _ in range(4):
             self._pass()
 
@@ -759,6 +760,39 @@ class IndexSorts:
         if srt:
             self.env.setdefault(name, set()).add(srt)
 
+    def container_root(self, e):
+        """The container whose positions `e` shares: itself, or -- for a local that is an element-wise image
+        of another container (an attribute/property of it, a comprehension over it, list()/np.array() of it,
+        a full slice) -- that container.  Returns the text of the root."""
+        if isinstance(e, ast.Name) and e.id in self.derived:
+            return self.derived[e.id]
+        return pf.src(e)
+
+    def _image_of(self, v):
+        """root container text if the value `v` keeps the positions of another container"""
+        if isinstance(v, ast.Attribute) and isinstance(v.value, ast.Name) \
+                and v.attr not in ("shape", "size", "ndim", "dtype", "T"):
+            return self.container_root(v.value)
+        if isinstance(v, ast.Call):
+            cn = pf.call_name(v) or ""
+            if (cn in self.KEEP_CALLS or cn in ("np.asarray", "np.stack")) and v.args:
+                return self._image_of(v.args[0]) or (
+                    self.container_root(v.args[0]) if isinstance(v.args[0], ast.Name) else None)
+            if isinstance(v.func, ast.Attribute) and v.func.attr in self.KEEP_METHODS:
+                return self._image_of(v.func.value) or (
+                    self.container_root(v.func.value) if isinstance(v.func.value, ast.Name) else None)
+        if isinstance(v, (ast.ListComp, ast.GeneratorExp)) and len(v.generators) == 1 \
+                and not v.generators[0].ifs and isinstance(v.generators[0].iter, ast.Name) \
+                and isinstance(v.generators[0].target, ast.Name):
+            # [g(f) for f in C]: position k of the result belongs to position k of C
+            tgt = v.generators[0].target.id
+            if any(isinstance(x, ast.Name) and x.id == tgt for x in ast.walk(v.elt)):
+                return self.container_root(v.generators[0].iter)
+        if isinstance(v, ast.Subscript) and isinstance(v.value, ast.Name) and isinstance(v.slice, ast.Slice) \
+                and v.slice.lower is None and v.slice.upper is None and v.slice.step is None:
+            return self.container_root(v.value)
+        return None
+
     def _pass(self):
         fn = self.fn
         for n in ast.walk(fn):
@@ -770,6 +804,9 @@ class IndexSorts:
                         and self.sort(v.slice.elts[1], n) == "Farr":
                     self.gathered[t] = v.value.id
                 self._bind(t, self.sort(v, n))
+                root = self._image_of(v)
+                if root is not None and root != t and len(er.assigns_to(fn, t)) == 1:
+                    self.derived[t] = root
 
     # uses -----------------------------------------------------------------
     def uses(self):
@@ -787,7 +824,7 @@ class IndexSorts:
                 srt = self.sort(ix, n)
                 if srt is None:
                     continue
-                out.setdefault((pf.src(n.value), ax), []).append((srt[0], n))
+                out.setdefault((self.container_root(n.value), ax), []).append((srt[0], n))
         return out
 
 
@@ -1095,6 +1132,16 @@ def _fuse_spin_gradient_wrong(text):
     return text[:a] + fused + text[end:]
 
 
+def _bounds_alias(text):
+    a = "    D = X[:, inds]\n    N = D.shape[1]\n    for i in range(N):\n        density = srbf_density"
+    b = "                density=density,\n                bound=feature_list[inds[i]].bounds,"
+    if text.count(a) != 1 or text.count(b) != 1:
+        return None
+    text = text.replace(a, "    D = X[:, inds]\n    N = D.shape[1]\n    bounds = [f.bounds for f in feature_list]\n"
+                           "    for i in range(N):\n        density = srbf_density")
+    return text.replace(b, "                density=density,\n                bound=bounds[i],")
+
+
 def _shift_scale_early(text):
     late = "    if len(sinds) == 0:\n        scale = scale[1:]\n        return scale, ind_sets, spline_grids, coeff_sets, const\n"
     anchor = "    D = X[:, inds]\n    N = D.shape[1]\n    for i in range(N):\n        density = srbf_density"
@@ -1164,6 +1211,8 @@ def mutants(tree):
         Mutant("additive mapper: grid dimension taken from the ungathered matrix", MT,
                "                D[:, i],\n                length_scale[i],\n                density=density,",
                "                X[:, i],\n                length_scale[i],\n                density=density,",
+               expect="index-space"),
+        Mutant("additive mapper: bounds taken from a derived list by subset position", MT, fn=_bounds_alias,
                expect="index-space"),
         Mutant("mapper: scale shifted before the constant term is formed", MT, fn=_shift_scale_early,
                expect="scale-order"),
